@@ -1,1 +1,227 @@
-// harness for rs/anda_db_hnsw/src/distance.rs (mounted by #[cfg(kani)] hook)
+// @module distance::verif_kani
+// Kani harnesses for rs/anda_db_hnsw/src/distance.rs — property C12: "each reported distance equals
+// the configured metric between the query and that stored vector". On vectors whose coordinates are
+// small integers every partial sum is exactly representable in bf16/f32, so the 8-lane kernels
+// (block path, remainder path, bf16 promotion) must equal exact integer arithmetic computed by the
+// harness. Symmetry / identity laws are decided over arbitrary finite f32.
+use super::*;
+
+/// D symbolic integer coordinates in [-r, r]; returns (a, b) as f32 plus the exact integer values of
+/// sum|a-b|, sum a*b, sum (a-b)^2.
+fn grid<const D: usize>(r: i8) -> ([f32; D], [f32; D], i32, i32, i32) {
+    let ai: [i8; D] = kani::any();
+    let bi: [i8; D] = kani::any();
+    let mut a = [0f32; D];
+    let mut b = [0f32; D];
+    let (mut man, mut dot, mut sq) = (0i32, 0i32, 0i32);
+    let mut i = 0;
+    while i < D {
+        kani::assume(ai[i] >= -r && ai[i] <= r && bi[i] >= -r && bi[i] <= r);
+        a[i] = ai[i] as f32;
+        b[i] = bi[i] as f32;
+        let d = ai[i] as i32 - bi[i] as i32;
+        man += d.abs();
+        dot += ai[i] as i32 * bi[i] as i32;
+        sq += d * d;
+        i += 1;
+    }
+    (a, b, man, dot, sq)
+}
+fn to_bf16<const D: usize>(x: &[f32; D]) -> [bf16; D] {
+    let mut o = [bf16::ZERO; D];
+    let mut i = 0;
+    while i < D {
+        o[i] = bf16::from_f32(x[i]);
+        i += 1;
+    }
+    o
+}
+
+macro_rules! grid_exact {
+    ($name:ident, $d:expr, $r:expr, $unwind:expr, man=$man:expr, ip=$ip:expr, euc=$euc:expr) => {
+        #[kani::proof]
+        #[kani::unwind($unwind)]
+        fn $name() {
+            let (a, b, man, dot, sq) = grid::<$d>($r);
+            if $man {
+                assert!(DistanceMetric::Manhattan.compute_f32(&a, &b).unwrap() == man as f32, "Manhattan == sum |a_i - b_i| (exact on the integer grid)");
+            }
+            if $ip {
+                assert!(DistanceMetric::InnerProduct.compute_f32(&a, &b).unwrap() == -(dot as f32), "InnerProduct == -sum a_i b_i (exact on the integer grid)");
+            }
+            if $euc {
+                let e = DistanceMetric::Euclidean.compute_f32(&a, &b).unwrap();
+                assert!(e == (sq as f32).sqrt(), "Euclidean == sqrt(sum (a_i - b_i)^2) (exact sum on the integer grid)");
+                assert!(e >= 0.0, "non-negative");
+            }
+            kani::cover!(man > 0 && dot != 0, "non-trivial vectors");
+            kani::cover!(man == 0, "identical vectors");
+        }
+    };
+}
+
+// @check id=C12 tier=quick cap=900 role=grid_exactness harness=c12_grid_d1,c12_grid_d3,c12_grid_d8_manhattan,c12_grid_d9_manhattan,c12_grid_d9_inner_product
+// @fns DistanceMetric::compute_f32, distance::manhattan_distance, distance::inner_product, distance::euclidean_distance, distance::check_dimensions
+// @bound dimension D in {1, 3 (remainder path only), 8 (one full lane block), 9 (block + remainder)}; coordinates all integers in [-4,4] (D<=3) or [-2,2] (D>=8); the metric equals exact integer arithmetic
+grid_exact!(c12_grid_d1, 1, 4, 11, man = true, ip = true, euc = true);
+grid_exact!(c12_grid_d3, 3, 4, 11, man = true, ip = true, euc = true);
+grid_exact!(c12_grid_d8_manhattan, 8, 2, 11, man = true, ip = false, euc = false);
+grid_exact!(c12_grid_d9_manhattan, 9, 2, 12, man = true, ip = false, euc = false);
+grid_exact!(c12_grid_d9_inner_product, 9, 2, 12, man = false, ip = true, euc = false);
+
+// @check id=C12 tier=thorough cap=1500 role=grid_exactness harness=c12_grid_d8_inner_product,c12_grid_d8_euclidean,c12_grid_d9_euclidean,c12_grid_d3_wide
+// @fns DistanceMetric::compute_f32, distance::manhattan_distance, distance::inner_product, distance::euclidean_distance
+// @bound D = 8 / 9 for the remaining metrics at [-2,2]; D = 3 at [-8,8]
+grid_exact!(c12_grid_d8_inner_product, 8, 2, 11, man = false, ip = true, euc = false);
+grid_exact!(c12_grid_d8_euclidean, 8, 2, 11, man = false, ip = false, euc = true);
+grid_exact!(c12_grid_d9_euclidean, 9, 2, 12, man = false, ip = false, euc = true);
+grid_exact!(c12_grid_d3_wide, 3, 8, 11, man = true, ip = true, euc = true);
+
+// the three entry points agree (bf16 stored vectors, f32 queries, mixed): small integers are exactly
+// representable in bf16, so promotion must not change anything and the mixed path must not quantize
+// the query differently.
+// @check id=C12 tier=quick cap=900 role=entry_points_agree
+// @fns DistanceMetric::compute, DistanceMetric::compute_f32, DistanceMetric::compute_mixed, distance::AsF32::as_f32
+// @bound D = 3, integer coordinates in [-4,4]; metrics Manhattan, InnerProduct, Euclidean
+#[kani::proof]
+#[kani::unwind(11)]
+fn c12_entry_points_agree_d3() {
+    let (a, b, man, dot, _sq) = grid::<3>(4);
+    let (ah, bh) = (to_bf16(&a), to_bf16(&b));
+    let m = DistanceMetric::Manhattan;
+    let f = m.compute_f32(&a, &b).unwrap();
+    assert!(m.compute(&ah, &bh).unwrap() == f && m.compute_mixed(&a, &bh).unwrap() == f && f == man as f32, "Manhattan: bf16 / f32 / mixed entry points agree");
+    let p = DistanceMetric::InnerProduct;
+    let f = p.compute_f32(&a, &b).unwrap();
+    assert!(p.compute(&ah, &bh).unwrap() == f && p.compute_mixed(&a, &bh).unwrap() == f && f == -(dot as f32), "InnerProduct: entry points agree");
+    let e = DistanceMetric::Euclidean;
+    let f = e.compute_f32(&a, &b).unwrap();
+    assert!(e.compute(&ah, &bh).unwrap() == f && e.compute_mixed(&a, &bh).unwrap() == f, "Euclidean: entry points agree");
+    kani::cover!(man > 3, "non-trivial");
+}
+
+// the mixed path keeps the query at f32 precision: a query coordinate that bf16 cannot represent
+// (1 + 2^-10) must still contribute its exact value.
+// @check id=C12 tier=quick cap=600 role=mixed_does_not_quantize_query
+// @fns DistanceMetric::compute_mixed
+// @bound D = 1 and D = 9: query coordinate q = k + 2^-10 for integer k in [-4,4] (not representable in bf16), stored coordinate an integer in [-4,4]
+#[kani::proof]
+#[kani::unwind(12)]
+fn c12_mixed_path_keeps_query_precision() {
+    let (k, s): (i8, i8) = (kani::any(), kani::any());
+    kani::assume(k >= -4 && k <= 4 && s >= -4 && s <= 4);
+    let q = k as f32 + 0.0009765625; // 2^-10
+    let stored = bf16::from_f32(s as f32);
+    let d = DistanceMetric::Manhattan.compute_mixed(&[q], &[stored]).unwrap();
+    assert!(d == (q - s as f32).abs(), "distance uses the unquantized query");
+    let mut qa = [0f32; 9];
+    let mut sa = [bf16::ZERO; 9];
+    qa[8] = q;
+    sa[8] = stored;
+    qa[0] = q;
+    sa[0] = stored;
+    let d9 = DistanceMetric::Manhattan.compute_mixed(&qa, &sa).unwrap();
+    assert!(d9 == (q - s as f32).abs() * 2.0, "lane block and remainder both use the unquantized query");
+    kani::cover!(k == s, "query next to the stored value");
+}
+
+// symmetry and identity over arbitrary finite f32 (not just the grid)
+// @check id=C12 tier=quick cap=900 role=symmetry_identity
+// @fns DistanceMetric::compute_f32, distance::manhattan_distance, distance::inner_product, distance::euclidean_distance
+// @bound D = 2, every finite f32 coordinate: d(a,b) and d(b,a) are bit-identical (or both NaN) for Manhattan, Euclidean and InnerProduct; d(a,a) = 0 for Manhattan and Euclidean
+#[kani::proof]
+#[kani::unwind(11)]
+fn c12_symmetry_and_identity_any_finite_f32_d2() {
+    let a: [f32; 2] = kani::any();
+    let b: [f32; 2] = kani::any();
+    kani::assume(a[0].is_finite() && a[1].is_finite() && b[0].is_finite() && b[1].is_finite());
+    let same = |x: f32, y: f32| x.to_bits() == y.to_bits() || (x.is_nan() && y.is_nan());
+    let m = DistanceMetric::Manhattan;
+    assert!(same(m.compute_f32(&a, &b).unwrap(), m.compute_f32(&b, &a).unwrap()), "Manhattan symmetric");
+    let e = DistanceMetric::Euclidean;
+    assert!(same(e.compute_f32(&a, &b).unwrap(), e.compute_f32(&b, &a).unwrap()), "Euclidean symmetric");
+    let p = DistanceMetric::InnerProduct;
+    assert!(same(p.compute_f32(&a, &b).unwrap(), p.compute_f32(&b, &a).unwrap()), "InnerProduct symmetric");
+    assert!(m.compute_f32(&a, &a).unwrap() == 0.0 && e.compute_f32(&a, &a).unwrap() == 0.0, "d(a,a) == 0");
+    let dm = m.compute_f32(&a, &b).unwrap();
+    assert!(dm >= 0.0 || dm.is_nan(), "Manhattan non-negative");
+    kani::cover!(dm.is_infinite(), "overflowing difference");
+    kani::cover!(dm > 0.0 && dm < 1.0, "small distance");
+}
+
+// Cosine: range, zero-vector rule, symmetry, identity — on the integer grid (the fully symbolic f32
+// division/sqrt query did not finish in the design probes)
+// @check id=C12 tier=quick cap=900 role=cosine_laws
+// @fns DistanceMetric::compute_f32, distance::cosine_distance
+// @bound D = 2, integer coordinates in [-4,4]
+#[kani::proof]
+#[kani::unwind(11)]
+fn c12_cosine_range_zero_vector_symmetry_d2() {
+    let (a, b, _man, dot, _sq) = grid::<2>(4);
+    let c = DistanceMetric::Cosine;
+    let ab = c.compute_f32(&a, &b).unwrap();
+    let ba = c.compute_f32(&b, &a).unwrap();
+    assert!(ab >= 0.0 && ab <= 2.0, "cosine distance within [0,2]");
+    assert!(ab.to_bits() == ba.to_bits(), "cosine symmetric");
+    let a_zero = a[0] == 0.0 && a[1] == 0.0;
+    let b_zero = b[0] == 0.0 && b[1] == 0.0;
+    if a_zero || b_zero {
+        assert!(ab == 1.0, "a zero vector is at distance 1 from everything");
+    } else {
+        // sign of the dot product decides the side of 1
+        if dot > 0 {
+            assert!(ab < 1.0, "acute angle: below 1");
+        }
+        if dot < 0 {
+            assert!(ab > 1.0, "obtuse angle: above 1");
+        }
+        if dot == 0 {
+            assert!(ab == 1.0, "orthogonal: exactly 1");
+        }
+    }
+    if !a_zero {
+        let aa = c.compute_f32(&a, &a).unwrap();
+        assert!(aa >= 0.0 && aa <= 1.0e-6, "cos distance of a vector to itself is ~0");
+    }
+    kani::cover!(a_zero && !b_zero, "zero query");
+    kani::cover!(dot < 0, "obtuse");
+}
+
+// @check id=C12 tier=quick cap=600 role=dimension_mismatch
+// @fns DistanceMetric::compute_f32, DistanceMetric::compute, DistanceMetric::compute_mixed, distance::check_dimensions
+// @bound slices of symbolic lengths 0..3 (any metric): Err iff the lengths differ
+#[kani::proof]
+#[kani::unwind(11)]
+fn c12_dimension_mismatch_is_an_error() {
+    let a = [1.0f32; 3];
+    let b = [2.0f32; 3];
+    let h = [bf16::ONE; 3];
+    let (la, lb): (usize, usize) = (kani::any(), kani::any());
+    kani::assume(la <= 3 && lb <= 3);
+    let metric = match kani::any::<u8>() % 4 {
+        0 => DistanceMetric::Euclidean,
+        1 => DistanceMetric::Cosine,
+        2 => DistanceMetric::InnerProduct,
+        _ => DistanceMetric::Manhattan,
+    };
+    let r = metric.compute_f32(&a[..la], &b[..lb]);
+    assert!(r.is_err() == (la != lb), "compute_f32: Err iff dimensions differ");
+    let r2 = metric.compute_mixed(&a[..la], &h[..lb]);
+    assert!(r2.is_err() == (la != lb), "compute_mixed: Err iff dimensions differ");
+    let r3 = metric.compute(&h[..la], &h[..lb]);
+    assert!(r3.is_err() == (la != lb), "compute: Err iff dimensions differ");
+    kani::cover!(la == lb && la == 3, "equal dimensions");
+    kani::cover!(la != lb, "mismatch");
+    std::mem::forget((r, r2, r3));
+}
+
+// @check id=C12 tier=thorough cap=300 expect=fail role=witness
+// @fns DistanceMetric::compute_f32
+// @bound vacuity twin: must come back FAILED
+#[kani::proof]
+#[kani::unwind(11)]
+fn c12_witness_must_fail() {
+    let (a, b, man, _dot, _sq) = grid::<3>(4);
+    let d = DistanceMetric::Manhattan.compute_f32(&a, &b).unwrap();
+    assert!(d != man as f32, "reachability witness");
+}
